@@ -903,6 +903,8 @@ def glue_greenback() -> None:
 
     @elaborate_frame.register(greenback._impl._greenback_shim)
     def elaborate_greenback_shim(frame: Frame, next_inner: object) -> object:
+        # (also handles _greenback_shim_sync, which with_portal_run_sync() uses;
+        # it has a child_greenlet too, but no orig_coro)
         frame.hide = True
 
         if isinstance(next_inner, Frame):
@@ -928,6 +930,11 @@ def glue_greenback() -> None:
                 "Can't identify what's going on with the greenback shim in this "
                 "frame"
             )
+
+    if hasattr(greenback._impl, "_greenback_shim_sync"):  # pragma: no branch
+        elaborate_frame.register(greenback._impl._greenback_shim_sync)(
+            elaborate_greenback_shim
+        )
 
     @elaborate_frame.register(greenback.await_)
     def elaborate_greenback_await(frame: Frame, next_inner: object) -> object:
